@@ -26,4 +26,12 @@ theorem trackerLow_iff (E : Env α) (salt : ByteArray) (p : SuppParams α) (c : 
       c < p.lt ∨ (c : α) < p.sd * E.z (suppressSeed E salt s) + (p.gap * p.sd + p.lt) := by
   simp [trackerLow, generateNoise_one, suppressSeed]
 
+theorem randomUniform_range' (iv : FlatInterval) (seed : UInt64) (h : iv.lower ≤ iv.upper) :
+    iv.lower ≤ randomUniform iv seed ∧ randomUniform iv seed ≤ iv.upper := by
+  unfold randomUniform
+  have hpos : (0 : Int) < iv.upper - iv.lower + 1 := by omega
+  have h1 := Int.emod_nonneg (seed.toNat : Int) (ne_of_gt hpos)
+  have h2 := Int.emod_lt_of_pos (seed.toNat : Int) hpos
+  omega
+
 end
